@@ -152,7 +152,7 @@ C03_Branches(c) ==
         \/ (e.tbl = "flow_control" /\ e.ca /\ ~Near(e.mf, e.set1, C03_Tol))
         \/ (e.tbl = "compressor" /\ e.rd > 0 /\ ForwardFlow(e) /\ JH(c.net, e.a) = JH(c.net, e.b) /\ ~CompressorOK(c.net, e))
         \/ (e.tbl = "circ_pump_mass" /\ ~Near(e.mf, e.set1, C03_Tol))
-        \/ (e.tbl = "circ_pump_pressure" /\ ~Near(Sub(e.pt, e.pf), e.set1, C03_Tol))
+        \/ (e.tbl = "circ_pump_pressure" /\ JH(c.net, e.a) = JH(c.net, e.b) /\ ~Near(Sub(e.pt, e.pf), e.set1, C03_Tol))
         \/ (e.tbl = "press_control" /\ e.ca /\ e.svc /\ IsNum(JP(c.net, e.cj)) /\ WellPosedPC(c.net, e)
                 /\ ~Near(JP(c.net, e.cj), e.set1, C03_Tol))}}
 C03_Loads(c) ==
